@@ -129,6 +129,7 @@ func (c *Cluster) NewRun() {
 	c.LateReqs = nil
 	c.mutIdx, c.InvLists = 0, 0
 	c.FailMut, c.FailReq = map[int]bool{}, nil
+	c.Finalizer = map[Key]bool{}
 	c.Before, c.After = nil, nil
 	c.Closed = false
 }
